@@ -41,6 +41,8 @@ def written_files(run, tier):
             il = (np.arange(shape[0]) - 2) * 2
             xl = (np.arange(shape[1]) - 3) * 3
             z0 = -2.0 * min(shape[2] // 2, 4 if bs[2] in (-1, 4) else bs[2])
+        if k % 3 == 2:      # descending line axes
+            il, xl = il[::-1].copy(), xl[::-1].copy()
         try:
             writers.numpy_to_sgz(p, cube, writers.rate_arg(rate), bs, ilines=il, xlines=xl,
                                  samples=z0 + np.arange(shape[2]) * 2.0)
